@@ -196,6 +196,22 @@ def layer_absorb(thorough):
             yield ("C", meta, case_tg, minlen)
 
 
+FINE = (0.0, 0.25, 1.0, 2.0, 2.25, 3.0)
+
+
+def layer_absorb_fine(thorough):
+    """tiers in which sub-threshold intervals occur in several places at once (0.25-long labelled slivers and 0.25-long gaps at the start, in
+    the middle and at the end, with ordinary intervals between them): all sets of <= 3 (thorough 4) non-overlapping labelled intervals on FINE"""
+    import itertools
+    ivs = list(itertools.combinations(FINE, 2))
+    for k in range(1, 5 if thorough else 4):
+        for combo in itertools.combinations(ivs, k):
+            if all(combo[i][1] <= combo[i + 1][0] for i in range(k - 1)):
+                E = tuple((a, b, "L%d" % i) for i, (a, b) in enumerate(combo))
+                for minlen in (0.3,) if not thorough else (0.3, 0.8):
+                    yield ("C", ("fine", k), (0.0, 3.0, (("I", "i", 0.0, 3.0, E),)), minlen)
+
+
 def check_absorb(case):
     """A non-default (large) minimumIntervalLength together with span overrides: whatever is absorbed, every interval tier of the written
     file still tiles exactly the file's [xmin, xmax] with positive-length intervals, the file span is the requested one, the labelled
@@ -245,12 +261,12 @@ def check_absorb(case):
                     have = [tuple(e) for e in t["entries"] if e[-1] != ""]
                     want = [tuple(e) for e in src.entries if e[-1] != ""]
                     it = iter(want)
-                    for h in have:   # what remains labelled is a subsequence of the tier's labelled entries, boundaries moved by less than minlen
+                    for h in have:   # what remains labelled is a subsequence of the tier's labelled entries, each grown (never shrunk) over absorbed neighbours
                         for w in it:
-                            if w[-1] == h[-1] and abs(w[0] - h[0]) < minlen and abs(w[1] - h[1]) < minlen:
+                            if w[-1] == h[-1] and h[0] <= w[0] and w[1] <= h[1]:
                                 break
                         else:
-                            msg = f"tier {t['name']!r}: labelled interval {h!r} in the file is not one of the tier's {want!r} (moved by < {minlen})"
+                            msg = f"tier {t['name']!r}: labelled interval {h!r} in the file is not one of the tier's {want!r} (possibly grown over absorbed neighbours)"
                             break
                     long_enough = [w for w in want if w[1] - w[0] >= minlen]
                     if msg is None and [w[-1] for w in long_enough] != [h[-1] for h in have if any(h[-1] == w[-1] for w in long_enough)][:len(long_enough)] \
@@ -362,6 +378,10 @@ def parts(tier):
                        "half and to 0.125 before / after the outermost entry) x 4 formats, blank filling on: interval tiers tile the file span "
                        "with positive-length intervals, the span is the requested one, surviving labelled intervals are the tier's own in order, "
                        "formats agree" % (ABSORB_LENGTHS,), bounds={"lengths": len(ABSORB_LENGTHS)}, snippet=c01._snippet, chunk=8),
+        InputPart("partition-under-absorption-several-slivers", lambda: layer_absorb_fine(not quick), check_absorb,
+                  rule="all sets of <= 3 (thorough 4) labelled intervals on the grid %s, threshold 0.3 (thorough also 0.8): sub-threshold intervals and "
+                       "gaps at the start, in the middle and at the end of one tier at the same time x the same overrides and oracles" % (FINE,),
+                  bounds={"grid": len(FINE)}, snippet=c01._snippet, chunk=8),
         InputPart("keywords", layer_keywords_everywhere, check,
                   rule="the formats' own keywords in every label and name position, and in all positions at once: the WRITER must "
                        "stay well-formed for the independent reader (the known reader findings of C01/C03 do not apply here)",
